@@ -455,10 +455,14 @@ fn consume_expr<'i>(
                         }
                     }
                     Rule::insensitive_string => {
-                        let string = unescape(pair.as_str()).expect("incorrect string literal");
+                        // `^` and the string may be separated by whitespace or comments,
+                        // so take the literal from the inner `string` pair.
+                        let span = pair.clone().as_span();
+                        let literal = pair.into_inner().next().unwrap();
+                        let string = unescape(literal.as_str()).expect("incorrect string literal");
                         ParserNode {
-                            expr: ParserExpr::Insens(string[2..string.len() - 1].to_owned()),
-                            span: pair.clone().as_span(),
+                            expr: ParserExpr::Insens(string[1..string.len() - 1].to_owned()),
+                            span,
                         }
                     }
                     Rule::range => {
